@@ -299,13 +299,99 @@ func rewritePackage(rel string) {
 		n := rewriteClock(f)
 		stats["clock_selectors"] += n
 		m := 0
+		if rel == "cmd/keymasterd" {
+			m += rewriteOnePass(f)
+		}
 		if *variant == "sched" && rel == "cmd/keymasterd" {
-			m = rewriteSched(fset, f)
+			m += rewriteSched(fset, f)
+		}
+		if *variant == "sched" && loopYieldPkgs[rel] {
+			m += rewriteLoopYields(f)
 		}
 		if n+m > 0 {
 			writeFile(fset, f, p, filepath.Join(rel, filepath.Base(p)))
 		}
 	}
+}
+
+// packages outside cmd/keymasterd whose functions get scheduling points at entry
+// and at the top of every loop body in the sched variant, so that interleavings
+// inside them are explored (shared package-level state shows up there)
+var loopYieldPkgs = map[string]bool{"lib/certgen": true}
+
+func rewriteLoopYields(f *ast.File) int {
+	n := 0
+	for _, d := range f.Decls {
+		fd, ok := d.(*ast.FuncDecl)
+		if !ok || fd.Body == nil {
+			continue
+		}
+		name := fd.Name.Name
+		hasLoop := false
+		ast.Inspect(fd.Body, func(nd ast.Node) bool {
+			switch v := nd.(type) {
+			case *ast.FuncLit:
+				return false
+			case *ast.ForStmt:
+				v.Body.List = append([]ast.Stmt{callStmt("vfsched", "Yield", strLit(name+":loop"))}, v.Body.List...)
+				hasLoop = true
+				n++
+			case *ast.RangeStmt:
+				v.Body.List = append([]ast.Stmt{callStmt("vfsched", "Yield", strLit(name+":loop"))}, v.Body.List...)
+				hasLoop = true
+				n++
+			}
+			return true
+		})
+		if hasLoop {
+			fd.Body.List = append([]ast.Stmt{callStmt("vfsched", "Yield", strLit(name+":enter"))}, fd.Body.List...)
+			n++
+		}
+	}
+	if n > 0 {
+		addImport(f, "vfsched", schedImport)
+		stats["loop_yield_points"] += n
+	}
+	return n
+}
+
+// onePassFuncs: background loops of the form `for { ...; time.Sleep(d) }`.  The
+// sleep is replaced by a return so that the harness can run ONE pass of the real
+// body (as a thread under the scheduler, or as an operation of a search).
+var onePassFuncs = map[string]bool{"performStateCleanup": true}
+
+func rewriteOnePass(f *ast.File) int {
+	n := 0
+	for _, d := range f.Decls {
+		fd, ok := d.(*ast.FuncDecl)
+		if !ok || fd.Body == nil || !onePassFuncs[fd.Name.Name] {
+			continue
+		}
+		ast.Inspect(fd.Body, func(nd ast.Node) bool {
+			bl, ok := nd.(*ast.BlockStmt)
+			if !ok {
+				return true
+			}
+			for i, st := range bl.List {
+				es, ok := st.(*ast.ExprStmt)
+				if !ok {
+					continue
+				}
+				call, ok := es.X.(*ast.CallExpr)
+				if !ok {
+					continue
+				}
+				sel, ok := call.Fun.(*ast.SelectorExpr)
+				if ok && sel.Sel.Name == "Sleep" {
+					bl.List[i] = &ast.ReturnStmt{}
+					n++
+				}
+			}
+			return true
+		})
+	}
+	stats["one_pass_loops"] += n
+	return n
 }
 
 func rewritePackageAuthutil() {
@@ -388,6 +474,10 @@ func rewriteDepFile(mod, relFile string) {
 	}
 	n := rewriteClock(f)
 	stats["clock_selectors_deps"] += n
+	if *variant == "sched" && mod == "golang.org/x/time" {
+		// the limiter's own mutex becomes a scheduling point
+		n += rewriteSyncFields(f, map[string]bool{"Limiter": true})
+	}
 	if n > 0 {
 		writeFile(fset, f, p, filepath.Join("deps", mod, relFile))
 	}
